@@ -18,6 +18,7 @@ import KafkaVerif.Lemmas.WriterCloseDetail
 import KafkaVerif.Lemmas.WriterCloseProgress
 import KafkaVerif.Lemmas.WriterCloseMeasure
 import KafkaVerif.Lemmas.GroupCloseProgress
+import KafkaVerif.Lemmas.FetcherDeadlines
 
 namespace KV.C09
 open KV.WriterClose
@@ -875,5 +876,52 @@ theorem reader_system_close_progress_full (c : Group.Cfg) (s : ReaderCloseSystem
     ∃ e, (ReaderCloseSystem.internal e = true ∨ (∃ gi acc, e = .group (.gStart gi acc)) ∨
           ∃ ge, e = .group ge ∧ GroupClose.genEv ge = true) ∧ (ReaderCloseSystem.step c s e).isSome = true :=
   GroupClose.system_progress_full c s hi hm
+
+end KV.C09
+
+/-! ## Blocking network operations of a fetcher and their deadlines (Model/FetcherDeadlines.lean; round 6, C09-m8) -/
+namespace KV.C09
+open KV.FetcherLife
+
+/-- the deadline facts of the source: regenerated by go/extract closeproto from reader.go on every run -/
+def sourceNet : NetFacts :=
+  ⟨Gen.CloseFacts.fetcherOffsetRequestsHaveDeadline, Gen.CloseFacts.fetcherReadHasDeadline⟩
+
+/-- **fetcher_never_blocked_silent_broker** — with a deadline on every blocking network operation of `(*reader).run`
+(the offsets requests of `initialize` and of the OffsetOutOfRange recovery: `SetDeadline`; the fetch: `SetReadDeadline`)
+a cancelled fetcher that has not exited always has an enabled control step even when the broker has stopped answering
+(`stepSilent`: the return of an operation is possible only through its deadline); it is `cancel` only when the pending
+sleep really sees the context done, inside a network operation it is that operation's failed return.  Every such step
+lowers `rank` (≤ 10 steps). -/
+theorem fetcher_never_blocked_silent_broker (f : NetFacts) (ho : f.offsets = true) (hr : f.read = true)
+    (s : FetcherLife.State) (hc : s.cancelled = true) (hx : s.pc ≠ .exited) :
+    (∃ e, e.control = true ∧ (stepSilent f s e).isSome = true ∧ (e = .cancel → s.sampled = true)) ∧
+    (∀ e s', e.control = true → stepSilent f s e = some s' → FetcherLife.rank s' < FetcherLife.rank s) :=
+  ⟨progress_after_cancel_silent f ho hr s hc hx,
+   fun e s' he h => (terminates_after_cancel_silent f s s' e hc he h).1⟩
+
+/-- **fetcher_never_blocked_for_source** — the same for the code as it is: the two deadline facts are the ones
+extracted from reader.go, so replacing `r.readOffsets(conn)` by a bare `conn.ReadOffsets()` (C09-m8), or dropping a
+`SetDeadline` / `SetReadDeadline`, breaks this theorem. -/
+theorem fetcher_never_blocked_for_source (s : FetcherLife.State) (hc : s.cancelled = true) (hx : s.pc ≠ .exited) :
+    ∃ e, e.control = true ∧ (stepSilent sourceNet s e).isSome = true ∧ (e = .cancel → s.sampled = true) :=
+  progress_after_cancel_silent sourceNet (by decide) (by decide) s hc hx
+
+/-- **fetcher_blocked_without_deadline** — the converse, which is the hang of C09-m8: blocked in a network operation
+that no deadline bounds, against a silent broker the fetcher has no step left (its context being cancelled changes
+nothing: a blocked socket read does not observe it), so `Reader.Close` waits in `r.join.Wait()` for ever. -/
+theorem fetcher_blocked_without_deadline (f : NetFacts) (s : FetcherLife.State) (b : NetFacts → Bool)
+    (hb : blockedIn s = some b) (hf : b f = false) (e : FetcherLife.Event) (he : e.control = true)
+    (hne : e ≠ .cancel ∨ s.pc = .oor) : stepSilent f s e = none :=
+  blocked_without_deadline f s b hb hf e he hne
+
+/-- the schedule of C09-m8 in the model: fetch answered OffsetOutOfRange, the follow-up offsets request unanswered, the
+context cancelled by Close — with the helper's deadline the request fails and the fetcher exits; without it nothing
+is enabled -/
+example : (FetcherLife.run {} [.top 0, .init true, .iter, .read .outOfRange, .ctxCancel]).bind
+    (fun s => (stepSilent ⟨true, true⟩ s (.offsets false)).bind fun s1 => (stepSilent ⟨true, true⟩ s1 (.top 1)).bind
+      fun s2 => (stepSilent ⟨true, true⟩ s2 .cancel).map (·.pc)) = some .exited := by decide
+example : (FetcherLife.run {} [.top 0, .init true, .iter, .read .outOfRange, .ctxCancel]).bind
+    (fun s => stepSilent ⟨false, true⟩ s (.offsets false)) = none := by decide
 
 end KV.C09
